@@ -45,9 +45,14 @@ trait Dm {
     fn views(&self) -> (Vec<f64>, Vec<u64>, Vec<u32>);
 }
 
+type NoHash = probminhash::nohasher::NoHashHasher;
+
 macro_rules! dm_impl {
     ($name:ident, $ty:ident, $f:ty) => {
-        struct $name($ty<$f, u64, FnvHasher>);
+        dm_impl!($name, $ty, $f, FnvHasher);
+    };
+    ($name:ident, $ty:ident, $f:ty, $h:ty) => {
+        struct $name($ty<$f, u64, $h>);
         impl Dm for $name {
             fn sketch(&mut self, x: u64) {
                 self.0.sketch(&x)
@@ -79,6 +84,9 @@ dm_impl!(OptF64, OptDensMinHash, f64);
 dm_impl!(OptF32, OptDensMinHash, f32);
 dm_impl!(RevF64, RevOptDensMinHash, f64);
 dm_impl!(RevF32, RevOptDensMinHash, f32);
+dm_impl!(OptF64No, OptDensMinHash, f64, NoHash);
+dm_impl!(RevF64No, RevOptDensMinHash, f64, NoHash);
+dm_impl!(OptF32No, OptDensMinHash, f32, NoHash);
 
 fn make(alg: &str, ft: &str, m: usize) -> Box<dyn Dm> {
     let bh = BuildHasherDefault::<FnvHasher>::default();
@@ -87,11 +95,17 @@ fn make(alg: &str, ft: &str, m: usize) -> Box<dyn Dm> {
         ("opt", "f32") => Box::new(OptF32(OptDensMinHash::new(m, bh))),
         ("rev", "f64") => Box::new(RevF64(RevOptDensMinHash::new(m, bh))),
         ("rev", "f32") => Box::new(RevF32(RevOptDensMinHash::new(m, bh))),
+        ("opt", "f64no") => Box::new(OptF64No(OptDensMinHash::new(m, BuildHasherDefault::<NoHash>::default()))),
+        ("rev", "f64no") => Box::new(RevF64No(RevOptDensMinHash::new(m, BuildHasherDefault::<NoHash>::default()))),
+        ("opt", "f32no") => Box::new(OptF32No(OptDensMinHash::new(m, BuildHasherDefault::<NoHash>::default()))),
         _ => tool_error("unknown densified sketcher"),
     }
 }
 
 const KINDS: [(&str, &str); 4] = [("opt", "f64"), ("opt", "f32"), ("rev", "f64"), ("rev", "f32")];
+/// kinds with the crate's identity hasher: the items are "already hashed" identifiers, including the values the
+/// sketchers use as sentinels (0, u64::MAX)
+const KINDS_NO: [(&str, &str); 3] = [("opt", "f64no"), ("rev", "f64no"), ("opt", "f32no")];
 
 /// what finishing an empty sketcher does, decided in a child process under a watchdog
 fn probe_empty(alg: &str, ft: &str, m: usize, call: &str, limit_ms: u64) -> &'static str {
@@ -357,9 +371,20 @@ fn replay(a: &Args) {
                 _ => {}
             }
         }
-        let (alg, ft) = KINDS[rng.random_range(0..4)];
+        let pick = rng.random_range(0..7);
+        let (alg, ft) = if pick < 4 { KINDS[pick] } else { KINDS_NO[pick - 4] };
         let m = ms[rng.random_range(0..ms.len())];
-        let items = fresh_items(nitems, &mut rng);
+        let mut items = fresh_items(nitems, &mut rng);
+        if pick >= 4 {
+            // sentinel-valued identifiers first (hash = identifier up to a byte swap)
+            let special = [u64::MAX, 0u64, 1u64 << 63, 1u64];
+            let off = rng.random_range(0..4);
+            for (i, it) in items.iter_mut().enumerate() {
+                if i < 2 {
+                    *it = special[(i + off) % 4];
+                }
+            }
+        }
         rec.one_run(&json!({"sched": si}), ops, ninst, alg, ft, m, &items);
     }
     rec.out.finish();
